@@ -6,6 +6,7 @@ CONSTANTS
   CompactAt = 1073741824
   Compact = TRUE
   Wrap = FALSE
+  SortKindOrder <- TraceSortKindOrder
 PROPERTIES SortStepIdeal InsertKeepsOrder
 POSTCONDITION TraceAccepted
 CHECK_DEADLOCK FALSE
